@@ -18,7 +18,7 @@ use hls_m3u8::tags::{
     ExtInf, ExtXDateRange, ExtXKey, ExtXMap, ExtXMedia, ExtXSessionData, ExtXSessionKey,
     ExtXStart, SessionData, VariantStream,
 };
-use hls_m3u8::types::{
+use hls_m3u8::types::{KeyFormat, 
     ByteRange, Channels, Codecs, DecryptionKey, EncryptionMethod, Float, InitializationVector,
     KeyFormatVersions, MediaType, Resolution, StreamData, Value,
 };
@@ -233,7 +233,7 @@ pub(crate) fn op_api(args: &[&str]) -> String {
         "iv_missing" => Some(0),
         "value_string" | "value_from_string" | "value_hex" | "value_float" | "inf" | "map"
         | "stream_data" | "start_new" | "channels" | "byte_range_to" | "kfv" | "iv_number"
-        | "iv_aes" => Some(1),
+        | "iv_aes" | "key_format_other" => Some(1),
         "inf_title" | "map_range_to" | "session_data_value" | "session_data_uri" | "daterange"
         | "key" | "session_key" | "start" | "resolution" | "byte_range" | "iframe"
         | "streaminf" => Some(2),
@@ -437,6 +437,17 @@ pub(crate) fn op_api(args: &[&str]) -> String {
             iv_case!(InitializationVector::Aes128(bytes))
         }
         "iv_missing" => iv_case!(InitializationVector::Missing),
+        // `KeyFormat::Other(text)` built directly (the enum variant; `KeyFormat::from` would
+        // normalise the well-known identifiers); re-parsed like the `tag` op does for KeyFormat.
+        "key_format_other" => {
+            need!(Some(text) = text_arg(args, 1));
+            api_case!(
+                KeyFormat::Other(Cow::Owned(text.clone())),
+                v => v.into_owned(),
+                s => Ok::<_, ()>(KeyFormat::from(s)),
+                observe::key_format
+            )
+        }
 
         // ------------------------------------------------------------ VariantStream
         "iframe" => {
